@@ -126,6 +126,10 @@ func cmdCheck(args []string) {
 		os.Exit(2)
 	}
 	prop := fs.Arg(0)
+	if emitProps[prop] != nil {
+		seed, _ := strconv.Atoi(envOr("VERIF_SEED", "0"))
+		os.Exit(checkEmit(prop, *tier, seed, *updateLedger))
+	}
 	spec := propSpecs()[prop]
 	if spec == nil {
 		fmt.Println("unknown property", prop)
@@ -493,3 +497,181 @@ type ReplayResult struct {
 }
 
 var _ = ssa.NewConst
+
+
+// ---------------------------------------------------------------- EMIT properties (C01..C07)
+
+type emitPropSpec struct {
+	Decided    []string
+	OutOfReach []string
+}
+
+var emitProps = map[string]*emitPropSpec{
+	"C01": {Decided: []string{"encode emitters of Go, Rust, Java, Python, C++: per cell (field kind x repeat x type) the emitted step names the field (not skipped), depends on exactly the configuration attributes the property dictates (byte order, string prefix, array prefix, length, effective padding), and differs between the byte orders exactly when it must"},
+		OutOfReach: []string{"the bytes produced when the emitted code runs against the codec runtimes (not in the repository)", "literal spelling of runtime API names inside format strings"}},
+	"C02": {Decided: []string{"decode emitters: same obligations as for encode; encode/decode symmetry per language and cell: same configuration atoms in the same order"},
+		OutOfReach: []string{"round trip on bytes, 'leaves following bytes unread'"}},
+	"C03": {Decided: []string{"every per-cell obligation of C01/C02 holds in all five codec languages, so no language drifts in which configuration attributes steer a cell"},
+		OutOfReach: []string{"byte identity between languages"}},
+	"C04": {Decided: []string{"length-of cells: the placeholder step depends on the length field's own type and on the byte order and on no prefix option; the back-patch of the target names the length field; the target's own encode step is still emitted"},
+		OutOfReach: []string{"that the patched value equals the number of bytes written"}},
+	"C05": {Decided: []string{"match cells (three keys, two of them selecting the same packet): every key reaches the dispatch code of Go (registration), Java (factory), Rust (decode arms) and Lua"},
+		OutOfReach: []string{"Python / C++ factory blocks (emitted inside a packet-level function that exceeds the cell executor's budget)", "run-time behaviour on an unmapped key"}},
+	"C06": {Decided: []string{"checksum cells: the encode step depends on the algorithm name, on the field's declared type and on the byte order; the decode step reads with the same type and byte order dependence"},
+		OutOfReach: []string{"which bytes the runtime service sums; the unregistered-name fallback at run time"}},
+	"C07": {Decided: []string{"all six targets: no cell makes an emitter skip the field (name obligation) or emit placeholder / 'unsupported' marker text, on any feasible path"},
+		OutOfReach: []string{"that every emitted file is a valid program of its target language"}},
+}
+
+func checkEmit(prop, tier string, seed int, updateLedger bool) int {
+	t0 := time.Now()
+	e := newEngine()
+	e.runInits()
+	e.cfg.Kinds = map[string]bool{}
+	e.cfg.Modular = false
+	e.cfg.AllowRecursion = true
+	e.cfg.MaxDepth = 40
+	var runs []emitRun
+	langs := map[string]bool{}
+	for _, en := range emitEntries() {
+		for _, c := range emitCells() {
+			if en.Dir == "dispatch" && c.Kind != "match" {
+				continue
+			}
+			// only the cells that can carry an obligation of this property
+			switch prop {
+			case "C04":
+				if c.Kind != "length" && !c.LenAttr {
+					continue
+				}
+			case "C05":
+				if c.Kind != "match" {
+					continue
+				}
+			case "C06":
+				if c.Kind != "checksum" {
+					continue
+				}
+			case "C01":
+				if en.Dir != "enc" {
+					continue
+				}
+			}
+			runs = append(runs, e.runEmit(en, c))
+			langs[en.Lang] = true
+		}
+	}
+	all := e.evalEmit(runs)
+	var owned []emitObl
+	for _, o := range all {
+		for _, p := range o.Props {
+			if p == prop {
+				owned = append(owned, o)
+			}
+		}
+	}
+	known := map[string]KnownFinding{}
+	for _, k := range loadKnownFindings() {
+		if k.Property == prop && k.Status == "open" {
+			known[k.Obligation] = k
+		}
+	}
+	ledger := loadLedger(prop)
+	newLedger := &Ledger{Property: prop, Obligations: map[string]string{}, Functions: map[string]string{}}
+	violations, discharged := 0, 0
+	var lines, knownHit []string
+	var samples []interface{}
+	os.MkdirAll(filepath.Join(verifRoot, "replays", prop), 0755)
+	for _, o := range owned {
+		if o.OK {
+			discharged++
+			newLedger.Obligations[o.Name] = "proved"
+			if len(samples) < 4 {
+				samples = append(samples, map[string]interface{}{"obligation": o.Name, "verdict": "holds", "detail": o.Detail})
+			}
+			continue
+		}
+		if k, ok := known[o.Name]; ok {
+			knownHit = append(knownHit, o.Name)
+			newLedger.Obligations[o.Name] = "known-finding"
+			lines = append(lines, fmt.Sprintf("KNOWN-FINDING: property=%s %s %s", prop, o.Name, k.What))
+			continue
+		}
+		newLedger.Obligations[o.Name] = "failed"
+		violations++
+		p := filepath.Join(verifRoot, "replays", prop, sanitize(o.Name)+".json")
+		rec := map[string]interface{}{"property": prop, "obligation": o.Name, "verifier_output": o.Detail}
+		// the cell itself is the failing input class: replay = the emitted text of the real emitter on it
+		for _, r := range runs {
+			if strings.HasPrefix(o.Name, fmt.Sprintf("EMIT:%s:%s:%s:", r.entry.Lang, r.entry.Dir, r.cell.ID)) {
+				var texts []string
+				for i, pth := range r.paths {
+					if i < 3 {
+						texts = append(texts, truncate(pth.text.String(), 1500))
+					}
+				}
+				rec["emitter"] = r.entry.Fn
+				rec["cell"] = r.cell
+				rec["emitted_text_of_the_real_emitter"] = texts
+			}
+		}
+		writeJSON(p, rec)
+		lines = append(lines, fmt.Sprintf("VIOLATION property=%s replay=%s no-failing-input-found", prop, p))
+	}
+	var vanished []string
+	for n, st := range ledger.Obligations {
+		if _, ok := newLedger.Obligations[n]; !ok && st == "proved" {
+			vanished = append(vanished, n)
+		}
+	}
+	// an obligation that existed on the unchanged tree must still be generated (renamed emitter etc.)
+	for _, n := range vanished {
+		violations++
+		p := filepath.Join(verifRoot, "replays", prop, sanitize(n)+".vanished.json")
+		writeJSON(p, map[string]interface{}{"property": prop, "obligation": n, "reason": "obligation of the ledger is no longer generated: the emitter it is attached to cannot be found or executed"})
+		lines = append(lines, fmt.Sprintf("VIOLATION property=%s replay=%s no-failing-input-found", prop, p))
+	}
+	if len(owned) == 0 {
+		violations++
+		lines = append(lines, fmt.Sprintf("VIOLATION property=%s replay=%s no-failing-input-found", prop, filepath.Join(verifRoot, "replays", prop, "no-obligations.json")))
+	}
+	for _, l := range lines {
+		fmt.Println(l)
+	}
+	spec := emitProps[prop]
+	var ls []string
+	for l := range langs {
+		ls = append(ls, l)
+	}
+	sort.Strings(ls)
+	level := "other"
+	cov := map[string]interface{}{
+		"obligations":            len(owned),
+		"discharged":             discharged,
+		"checker_cmd":            "/verif/bin/goverif check -tier " + tier + " " + prop,
+		"trusted_base":           []string{"golang.org/x/tools go/ssa v0.29.0", "library contracts in goverif/externs.go (fmt.Sprintf, strings.Builder, strcase, html/template rendering)", "z3 / cvc5 (feasibility of result paths)"},
+		"explanation":            fmt.Sprintf("EMIT obligations: the real emitters of %v are executed symbolically on %d cell runs (one-field packets; names, lengths, paddings and the whole Configuration symbolic); predicates over the normal form of the emitted text (literal and provenance-carrying atoms) are decided structurally; infeasible result paths are pruned by SMT. %d obligations, %d hold, %d open known findings. Level 'other': the conjuncts about what the emitted text means when run are out of reach (see conjuncts_out_of_reach).", ls, len(runs), len(owned), discharged, len(knownHit)),
+		"samples":                samples,
+		"cells":                  len(emitCells()),
+		"runs":                   len(runs),
+		"languages":              ls,
+		"known_findings":         knownHit,
+		"vanished":               vanished,
+		"conjuncts_decided":      spec.Decided,
+		"conjuncts_out_of_reach": spec.OutOfReach,
+		"exhaustive":             false,
+	}
+	ev := Evidence{PropertyID: prop, Tier: tier, Seed: seed, Level: level, Coverage: cov, WallS: time.Since(t0).Seconds(), Violations: violations,
+		Assumptions: []string{"strings are abstract: predicates speak about provenance and literal atoms of the emitted template, not about characters produced for unusual names", "option values range over the documented sets (u8/u16/u32/u64 prefixes)", "library contracts of fmt.Sprintf / strings.Builder / strcase / html/template are trusted"}}
+	os.MkdirAll(filepath.Join(verifRoot, "evidence"), 0755)
+	writeJSON(filepath.Join(verifRoot, "evidence", prop+".json"), ev)
+	if updateLedger {
+		os.MkdirAll(filepath.Join(verifRoot, "ledger"), 0755)
+		writeJSON(filepath.Join(verifRoot, "ledger", prop+".json"), newLedger)
+	}
+	fmt.Printf("%s: obligations=%d discharged=%d known-findings=%d violations=%d wall=%.1fs\n", prop, len(owned), discharged, len(knownHit), violations, time.Since(t0).Seconds())
+	if violations > 0 {
+		return 1
+	}
+	return 0
+}
